@@ -145,19 +145,42 @@ def make_judges(ctx, conv_max_word=24):
         ctx.floor_hit(('ufunc-left', kinds[0] if kinds[0] != 'Fxp' else 'Fxp'))
 
     def conv_judge(ev):
-        if ev.kind != 'method' or ev.op not in ('get_val', 'astype', '__float__', '__int__', '__bool__', 'raw', 'uraw', '__call__') or ev.kwargs:
+        if ev.kind != 'method' or ev.op not in ('get_val', 'astype', '__float__', '__int__', '__bool__', 'raw', 'uraw', '__call__'):
             return
+        sel = None
+        if ev.kwargs:
+            # element-wise reads: get_val(item=) / astype(t, item=) (flat position or tuple) and index= (a NumPy index)
+            if ev.op not in ('get_val', 'astype') or set(ev.kwargs) - {'item', 'index'} or len(ev.kwargs) != 1 or list(ev.kwargs.values())[0] is None:
+                return
+            sel = list(ev.kwargs.items())[0]
         x = ev.pre[0] if ev.pre else None
+        if x is not None and ev.post and ev.post[0] is not None and ev.exc is None and not (ev.op == '__call__' and ev.args) and x.key() != ev.post[0].key():
+            # a read returns something: it does not change the object it reads
+            ctx.violation('read_modifies', '%s changed the object it was called on: %s codes %s -> %s' % (ev.op, R.dtype_fxp(*x.fmt()), x.codes[:4], ev.post[0].codes[:4]), ev, key='read.modifies')
         if x is None or not A.usable(x) or not (1 <= x.n_word <= conv_max_word and -8 <= x.n_frac <= x.n_word + 8):
             ctx.skip('conv:operand outside domain')
             return
         lsb = R.lsb(x.n_frac)
-        vals = [k * lsb for k in x.codes]
+        codes_sel = x.codes
+        if sel is not None:
+            if x.is_complex:
+                return
+            try:
+                ca = np.empty(len(x.codes), dtype=object)
+                ca[:] = x.codes
+                ca = ca.reshape(tuple(x.shape))
+                picked = ca.item(sel[1]) if sel[0] == 'item' else ca[sel[1]]
+            except Exception:
+                return      # (an index error of the caller)
+            codes_sel = list(np.asarray(picked, dtype=object).ravel().tolist())
+        vals = [k * lsb for k in codes_sel]
         what = ev.op
         if ev.op == 'astype':
             if len(ev.args) != 1 or ev.args[0] not in (float, int):
                 return
             what = 'astype(%s)' % ev.args[0].__name__
+            if sel is not None:
+                ctx.floor_hit(('element-read', sel[0]))
         elif ev.op in ('get_val', '__call__'):
             if ev.args:
                 return
@@ -179,7 +202,7 @@ def make_judges(ctx, conv_max_word=24):
             got = [bool(res)]
         elif ev.op in ('raw', 'uraw'):
             m = 1 << x.n_word
-            exp = [F(k) if ev.op == 'raw' else F(k % m) for k in x.codes]
+            exp = [F(k) if ev.op == 'raw' else F(k % m) for k in codes_sel]
             try:
                 got = exact_values(res)[0]
             except Unsupported:
@@ -201,7 +224,7 @@ def make_judges(ctx, conv_max_word=24):
             ctx.violation('conversion', '%s of %s codes %s returned %.100r, expected %s' % (what, R.dtype_fxp(*x.fmt()), x.codes[:3], res, [str(e) for e in exp[:3]]), ev)
         neg_nonint = any(v < 0 and v.denominator != 1 for v in vals)
         fc = G.frac_class(x.n_word, x.n_frac)
-        ctx.judged((what, fc, neg_nonint, len(x.shape)), neg_nonint or fc != 'in', None, elements=len(vals))
+        ctx.judged((what, fc, neg_nonint, len(x.shape), sel[0] if sel else None), neg_nonint or fc != 'in', None, elements=len(vals))
         ctx.floor_hit(('conv', what.split('[')[0]))
     return [cmp_judge, ufunc_cmp_judge, conv_judge]
 
@@ -209,7 +232,7 @@ def make_judges(ctx, conv_max_word=24):
 def floors(tier):
     return [(op, k) for op in REL for k in ('Fxp', 'number', 'array')] + [('ufunc', n) for n in ('less', 'less_equal', 'equal', 'not_equal', 'greater', 'greater_equal')] + \
            [('ufunc-left', k) for k in ('float64', 'array', 'Fxp')] + [('conv1', '__float__'), ('conv1', '__int__'), ('cmp-config',)] + \
-           [('conv', w) for w in ('get_val', 'astype(float)', 'astype(int)', '__float__', '__int__', '__bool__', 'raw', 'uraw')]
+           [('conv', w) for w in ('get_val', 'astype(float)', 'astype(int)', '__float__', '__int__', '__bool__', 'raw', 'uraw')] + [('element-read', 'item'), ('element-read', 'index'), ('read-then-read',)]
 
 
 def cases(tier, seed):
@@ -238,6 +261,18 @@ def run_case(case, ctx):
         xa = Fxp(np.arange(lo, hi + 1), s, w, nf, raw=True)
         xf = Fxp(np.arange(lo, hi + 1) / 2.0 ** nf, s, w, nf)
         for x in (xa, xf):
+            # reading twice gives the same thing: a read that rewrote the codes shows in the second one (and in the frame condition of the first)
+            _try(lambda: x.uraw())
+            _try(lambda: x.raw())
+            _try(lambda: x.get_val())
+            ctx.floor_hit(('read-then-read',))
+            # element-wise reads by flat position (0 and the last one included), by tuple and by index
+            for it in sorted({0, 1 % (hi - lo + 1), hi - lo, (hi - lo) // 2}):
+                _try(lambda: x.get_val(item=it))
+                _try(lambda: x.astype(float, item=it))
+                _try(lambda: x.astype(int, item=it))
+                _try(lambda: x.astype(float, index=it))
+                _try(lambda: x.astype(int, index=slice(it, None)))
             _try(lambda: x.get_val())
             _try(lambda: x.astype(float))
             _try(lambda: x.astype(int))
